@@ -20,7 +20,9 @@ Local Open Scope N_scope.
 
 Inductive res := ROk | RViolation | RNotFound | RPanic | ROther.
 (* the five writers of the property + a set-up step of the harness (raw delete of a record row) *)
-Inductive skind := KPlog | KWlog | KApply | KReapplyRecs | KReapplyWlog | KRawDel.
+(* KForeign: ANOTHER writer on the shared storage (a second node with its own istoragecache, below the
+   cache of the node under test) stored these rows *)
+Inductive skind := KPlog | KWlog | KApply | KReapplyRecs | KReapplyWlog | KRawDel | KForeign.
 
 Definition res_eqb (a b : res) : bool :=
   match a, b with
@@ -152,7 +154,10 @@ Context (stamp : V -> N) (veqb : V -> V -> bool).
    the backend under it (bottom), and the API read (ReadPLog / ReadWLog / Records.Get) reduced to
    the stamp the harness put into the event (RegisteredAt) or record (field) *)
 Record obs := mkObs { o_top : option V; o_bot : option V; o_api : option N }.
-Record slot := mkSlot { sl_it : item; sl_before : obs; sl_after : obs }.
+(* sl_stale: another writer has touched this slot underneath the node's cache(s): what the node sees through
+   istoragecache / its PLog cache is then legitimately out of date and only the raw bytes of the shared
+   storage (o_bot) are compared and judged *)
+Record slot := mkSlot { sl_it : item; sl_stale : bool; sl_before : obs; sl_after : obs }.
 Record step := mkStep { s_kind : skind; s_corrupted : bool; s_slots : list slot; s_res : res; s_calls : list call }.
 (* backend: 0 mem, 1 bbolt, 2 istoragecache over mem *)
 Record gtrace := mkTrace { t_backend : N; t_trust : N; t_steps : list step }.
@@ -175,6 +180,7 @@ Definition run_step (trust : N) (now : Z) (st : store) (s : step) : option (stor
       | [it] => Some (del_row st (it_pk it) (it_cc it), ROk, [])
       | _ => None
       end
+  | KForeign => Some (put_batch st (rows (items_of s)), ROk, [])
   end.
 
 Definition obs_of (now : Z) (st : store) (it : item) : obs :=
@@ -196,13 +202,16 @@ Definition call_eqb (a b : call) : bool :=
   | _, _ => false
   end.
 
+Definition obs_ok (stale : bool) (a b : obs) : bool :=
+  if stale then option_eqb veqb (o_bot a) (o_bot b) else obs_eqb a b.
+
 (* the model replays the step on its store and every observable must coincide *)
 Definition check_step (trust : N) (now : Z) (st : store) (s : step) : option store :=
   match run_step trust now st s with
   | None => None
   | Some (st', r, cs) =>
-      if forallb (fun sl => obs_eqb (sl_before sl) (obs_of now st (sl_it sl))
-                            && obs_eqb (sl_after sl) (obs_of now st' (sl_it sl))) (s_slots s)
+      if forallb (fun sl => obs_ok (sl_stale sl) (sl_before sl) (obs_of now st (sl_it sl))
+                            && obs_ok (sl_stale sl) (sl_after sl) (obs_of now st' (sl_it sl))) (s_slots s)
          && res_eqb (s_res s) r && list_eqb call_eqb (s_calls s) cs
       then Some st' else None
   end.
@@ -226,7 +235,8 @@ Definition protected (trust : N) (k : skind) (is_new : bool) : bool :=
   | _ => false
   end.
 
-Definition occupied (o : obs) : bool := match o_top o with Some _ => true | None => false end.
+(* occupied: judged on the raw bytes of the shared storage *)
+Definition occupied (o : obs) : bool := match o_bot o with Some _ => true | None => false end.
 Definition written (it : item) : obs := mkObs (Some (it_val it)) (Some (it_val it)) (Some (stamp (it_val it))).
 
 Definition key_eqb (a b : item) : bool := lex_eqb (it_pk a) (it_pk b) && lex_eqb (it_cc a) (it_cc b).
@@ -254,14 +264,14 @@ Definition judge (trust : N) (k : skind) (slots : list slot) (r : res) : bool :=
   if existsb (refused trust k) slots then
     res_eqb r RViolation
     && forallb (fun sl => negb (refused trust k sl && Nat.eqb (key_count (sl_it sl) (map sl_it slots)) 1)
-                          || obs_eqb (sl_after sl) (sl_before sl)) slots
+                          || obs_ok (sl_stale sl) (sl_after sl) (sl_before sl)) slots
   else if nodup_keys (map sl_it slots) then
-    res_eqb r ROk && forallb (fun sl => obs_eqb (sl_after sl) (written (sl_it sl))) slots
+    res_eqb r ROk && forallb (fun sl => obs_ok (sl_stale sl) (sl_after sl) (written (sl_it sl))) slots
   else true.
 
 Definition satisfies_step (trust : N) (s : step) : bool :=
   match s_kind s with
-  | KRawDel => true
+  | KRawDel | KForeign => true
   | k => if in_domain trust s then judge trust k (s_slots s) (s_res s) else true
   end.
 
